@@ -25,6 +25,7 @@ import (
 	sdk "github.com/cosmos/cosmos-sdk/types"
 
 	"github.com/kava-labs/kava/app"
+	"github.com/kava-labs/kava/x/hard"
 	"github.com/kava-labs/kava/x/incentive"
 	inckeeper "github.com/kava-labs/kava/x/incentive/keeper"
 	inctypes "github.com/kava-labs/kava/x/incentive/types"
@@ -73,7 +74,8 @@ type histCfg struct {
 
 type op struct {
 	Kind string `json:"kind"` // block | deposit | withdraw | trade | claim
-	U    int    `json:"u"`
+	U    int    `json:"u"` // the user whose position (or claim) the operation is about
+	K    int    `json:"k,omitempty"` // the sender when it is somebody else (keeper, third-party depositor / repayer)
 	P    int    `json:"p"`
 	Dt   int64  `json:"dt_ns,omitempty"`
 	A    string `json:"a,omitempty"` // deposit: token A amount; withdraw: shares; trade: input amount
@@ -93,11 +95,27 @@ type hist struct {
 
 // dimensions of a source: users and pools (collateral types) of the model instance
 func dimsOf(src string) (nU, nP int) {
-	if src == "delegator" {
+	switch src {
+	case "delegator":
 		return 5, 1 // users 0..2 delegators, 3..4 validator operators; one "pool": the bond denom
+	case "cdp":
+		return 4, 2 // users 0..2 cdp owners, 3 keeper/third-party depositor; pools = collateral types
+	case "hard":
+		return 4, 4 // pools 0,1 = supply of hardDenoms; 2,3 = borrow of hardDenoms
 	}
 	return 3, 3
 }
+
+// reward denoms of a source, in string order (index = model denom)
+func rdOf(src string) []string {
+	if src == "cdp" {
+		return []string{"ukava", "zzz"} // USDX minting pays ukava only; the second denom is never rewarded
+	}
+	return rewardDenoms
+}
+
+// does the source guarantee total = sum of the share records exactly
+func exactOf(src string) bool { return src == "swap" || src == "cdp" }
 
 func bigOf(s string) *big.Int {
 	x, ok := new(big.Int).SetString(s, 10)
@@ -107,7 +125,7 @@ func bigOf(s string) *big.Int {
 	return x
 }
 
-func genCfg(r *Rng, nPools int) histCfg {
+func genCfg(r *Rng, src string, nPools int) histCfg {
 	sec := int64(1_000_000_000)
 	c := histCfg{}
 	for p := 0; p < nPools; p++ {
@@ -172,6 +190,15 @@ func genCfg(r *Rng, nPools int) histCfg {
 		if pc.Rates[0] == "0" && pc.Rates[1] == "0" {
 			pc.Rates[0] = "7"
 		}
+		if src == "cdp" { // USDX minting rewards are a single ukava coin
+			pc.Rates[1] = "0"
+			if pc.Rates[0] == "0" {
+				pc.Rates[0] = genRate()
+			}
+			if bigOf(pc.Rates[0]).Sign() <= 0 {
+				pc.Rates[0] = "7"
+			}
+		}
 		c.Periods = append(c.Periods, pc)
 	}
 	if r.Chance(1, 5) {
@@ -207,6 +234,7 @@ func genCfg(r *Rng, nPools int) histCfg {
 
 type world struct {
 	src    string
+	rd     []string // reward denoms
 	nU, nP int
 	vals   []sdk.ValAddress // delegator source: validators created so far
 	tApp   app.TestApp
@@ -223,6 +251,7 @@ type world struct {
 func setup(src string, cfg histCfg) *world {
 	tApp := NewApp()
 	nUsers, nPools := dimsOf(src)
+	rd := rdOf(src)
 	users := Addrs(nUsers)
 	cdc := tApp.AppCodec()
 	b := app.NewAuthBankGenesisBuilder()
@@ -231,6 +260,12 @@ func setup(src string, cfg histCfg) *world {
 		sdk.NewCoin("ukava", sdkmath.NewIntFromBigInt(Pow10(24))),
 		sdk.NewCoin("usdx", sdkmath.NewIntFromBigInt(Pow10(24))),
 	)
+	if src == "cdp" {
+		funds = sdk.NewCoins(
+			sdk.NewCoin("bnb", sdkmath.NewIntFromBigInt(Pow10(24))),
+			sdk.NewCoin("xrp", sdkmath.NewIntFromBigInt(Pow10(24))),
+		)
+	}
 	for i := 0; i < nUsers; i++ {
 		b.WithSimpleAccount(users[i], funds)
 	}
@@ -250,10 +285,20 @@ func setup(src string, cfg histCfg) *world {
 		var rates sdk.Coins
 		for d, rs := range pc.Rates {
 			if amt := bigOf(rs); amt.Sign() > 0 {
-				rates = rates.Add(sdk.NewCoin(rewardDenoms[d], sdkmath.NewIntFromBigInt(amt)))
+				rates = rates.Add(sdk.NewCoin(rd[d], sdkmath.NewIntFromBigInt(amt)))
 			}
 		}
-		if src == "delegator" {
+		start, end := t0.Add(time.Duration(pc.StartOff)), t0.Add(time.Duration(pc.EndOff))
+		if src == "cdp" {
+			incGen.Params.USDXMintingRewardPeriods = append(incGen.Params.USDXMintingRewardPeriods,
+				inctypes.NewRewardPeriod(true, cdpTypes[p], start, end, rates[0]))
+		} else if src == "hard" && p < 2 {
+			incGen.Params.HardSupplyRewardPeriods = append(incGen.Params.HardSupplyRewardPeriods,
+				inctypes.NewMultiRewardPeriod(true, hardDenoms[p], start, end, rates))
+		} else if src == "hard" {
+			incGen.Params.HardBorrowRewardPeriods = append(incGen.Params.HardBorrowRewardPeriods,
+				inctypes.NewMultiRewardPeriod(true, hardDenoms[p-2], start, end, rates))
+		} else if src == "delegator" {
 			incGen.Params.DelegatorRewardPeriods = append(incGen.Params.DelegatorRewardPeriods,
 				inctypes.NewMultiRewardPeriod(true, inctypes.BondDenom, t0.Add(time.Duration(pc.StartOff)), t0.Add(time.Duration(pc.EndOff)), rates))
 		} else {
@@ -267,19 +312,26 @@ func setup(src string, cfg histCfg) *world {
 		for _, m := range ms {
 			mm = append(mm, inctypes.NewMultiplier(m.Name, m.Months, sdk.MustNewDecFromStr(m.Factor)))
 		}
-		incGen.Params.ClaimMultipliers = append(incGen.Params.ClaimMultipliers, inctypes.MultipliersPerDenom{Denom: rewardDenoms[d], Multipliers: mm})
+		incGen.Params.ClaimMultipliers = append(incGen.Params.ClaimMultipliers, inctypes.MultipliersPerDenom{Denom: rd[d], Multipliers: mm})
 	}
-	tApp.InitializeFromGenesisStatesWithTime(t0,
+	gss := []app.GenesisState{
 		b.BuildMarshalled(cdc),
 		app.GenesisState{swaptypes.ModuleName: cdc.MustMarshalJSON(&swapGen)},
 		app.GenesisState{inctypes.ModuleName: cdc.MustMarshalJSON(&incGen)},
-	)
-	w := &world{src: src, nU: nUsers, nP: nPools, tApp: tApp, height: 2, t: t0, ik: tApp.GetIncentiveKeeper(), sk: tApp.GetSwapKeeper(), addrs: users, cfg: cfg, t0: t0.UnixNano()}
+	}
+	if src == "cdp" {
+		gss = append(gss, cdpGenesis(cdc)...)
+	}
+	if src == "hard" {
+		gss = append(gss, hardGenesis(cdc)...)
+	}
+	tApp.InitializeFromGenesisStatesWithTime(t0, gss...)
+	w := &world{src: src, rd: rd, nU: nUsers, nP: nPools, tApp: tApp, height: 2, t: t0, ik: tApp.GetIncentiveKeeper(), sk: tApp.GetSwapKeeper(), addrs: users, cfg: cfg, t0: t0.UnixNano()}
 	w.ctx = NewCtx(tApp, w.height, w.t)
 	var fund sdk.Coins
 	for d, a := range cfg.Macc {
 		if amt := bigOf(a); amt.Sign() > 0 {
-			fund = fund.Add(sdk.NewCoin(rewardDenoms[d], sdkmath.NewIntFromBigInt(amt)))
+			fund = fund.Add(sdk.NewCoin(rd[d], sdkmath.NewIntFromBigInt(amt)))
 		}
 	}
 	if !fund.IsZero() {
@@ -320,20 +372,25 @@ func (w *world) snap() *snap {
 	s := &snap{now: big.NewInt(w.ctx.BlockTime().UnixNano())}
 	bk := w.tApp.GetBankKeeper()
 	maccAddr := w.tApp.GetAccountKeeper().GetModuleAddress(inctypes.IncentiveMacc)
-	if w.src == "delegator" {
+	switch w.src {
+	case "delegator":
 		w.snapDeleg(s)
-	} else {
+	case "cdp":
+		w.snapCdp(s)
+	case "hard":
+		w.snapHard(s)
+	default:
 		w.snapSwap(s)
 	}
 	for u := 0; u < w.nU; u++ {
 		bb := make([]*big.Int, nDenoms)
 		for d := 0; d < nDenoms; d++ {
-			bb[d] = bk.GetBalance(w.ctx, w.addrs[u], rewardDenoms[d]).Amount.BigInt()
+			bb[d] = bk.GetBalance(w.ctx, w.addrs[u], w.rd[d]).Amount.BigInt()
 		}
 		s.bal = append(s.bal, bb)
 	}
 	for d := 0; d < nDenoms; d++ {
-		s.macc = append(s.macc, bk.GetBalance(w.ctx, maccAddr, rewardDenoms[d]).Amount.BigInt())
+		s.macc = append(s.macc, bk.GetBalance(w.ctx, maccAddr, w.rd[d]).Amount.BigInt())
 	}
 	return s
 }
@@ -418,7 +475,12 @@ func (s *snap) flat() []*big.Int {
 		out = append(out, h)
 		for p := 0; p < nPools; p++ {
 			out = append(out, s.sh[u][p])
-			out = append(out, s.uidx[u][p]...)
+			for _, x := range s.uidx[u][p] {
+				if s.sh[u][p].Sign() == 0 {
+					x = big.NewInt(0) // the index is irrelevant while the user has no shares in the pool
+				}
+				out = append(out, x)
+			}
 		}
 		out = append(out, s.rew[u]...)
 		out = append(out, s.synced[u]...)
@@ -432,16 +494,32 @@ func (s *snap) flat() []*big.Int {
 
 var farDeadline = time.Date(2100, 1, 1, 0, 0, 0, 0, time.UTC).Unix()
 
-func denomName(d int) string {
+func (w *world) denomName(d int) string {
 	if d >= 0 && d < nDenoms {
-		return rewardDenoms[d]
+		return w.rd[d]
 	}
 	return "xyz"
 }
 
 // doClaim sends the source's claim message (one denom, one multiplier)
 func (w *world) doClaim(ctx sdk.Context, o op) error {
-	sel := inctypes.Selections{inctypes.NewSelection(denomName(o.D), o.M)}
+	sel := inctypes.Selections{inctypes.NewSelection(w.denomName(o.D), o.M)}
+	if w.src == "cdp" {
+		msg := &inctypes.MsgClaimUSDXMintingReward{Sender: w.addrs[o.U].String(), MultiplierName: o.M}
+		if err := msg.ValidateBasic(); err != nil {
+			return err
+		}
+		_, err := inckeeper.NewMsgServerImpl(w.ik).ClaimUSDXMintingReward(sdk.WrapSDKContext(ctx), msg)
+		return err
+	}
+	if w.src == "hard" {
+		msg := &inctypes.MsgClaimHardReward{Sender: w.addrs[o.U].String(), DenomsToClaim: sel}
+		if err := msg.ValidateBasic(); err != nil {
+			return err
+		}
+		_, err := inckeeper.NewMsgServerImpl(w.ik).ClaimHardReward(sdk.WrapSDKContext(ctx), msg)
+		return err
+	}
 	if w.src == "delegator" {
 		msg := &inctypes.MsgClaimDelegatorReward{Sender: w.addrs[o.U].String(), DenomsToClaim: sel}
 		if err := msg.ValidateBasic(); err != nil {
@@ -465,6 +543,9 @@ func (w *world) exec(o op) (Class, error) {
 		w.t = w.t.Add(time.Duration(o.Dt))
 		w.ctx = NewCtx(w.tApp, w.height, w.t)
 		return Atomically(w.ctx, func(ctx sdk.Context) error {
+			if w.src == "hard" {
+				hard.BeginBlocker(ctx, w.tApp.GetHardKeeper()) // interest accrual runs before incentive, as in app/app.go
+			}
 			incentive.BeginBlocker(ctx, w.ik)
 			return nil
 		})
@@ -509,6 +590,14 @@ func (w *world) exec(o op) (Class, error) {
 		return Atomically(w.ctx, func(ctx sdk.Context) error { return w.doClaim(ctx, o) })
 	case "mkval", "endblock", "delegate", "undelegate", "redelegate":
 		return w.execDeleg(o)
+	case "price":
+		return w.execPrice(o)
+	}
+	if strings.HasPrefix(o.Kind, "cdp-") {
+		return w.execCdp(o)
+	}
+	if strings.HasPrefix(o.Kind, "hard-") {
+		return w.execHard(o)
 	}
 	panic("unknown op kind " + o.Kind)
 }
@@ -711,7 +800,7 @@ func (m *mon) check(w *world, o op, cls Class, err error, before, after *snap, c
 					}
 				}
 			}
-			T := before.tot[p] // Dec mantissa
+			T := after.tot[p] // Dec mantissa; the source's own begin blocker (interest) runs before incentive's
 			active := T.Sign() > 0 && secs.Sign() > 0
 			if dur > 0 && T.Sign() == 0 {
 				mark("accumulate:no-shares-rewards-dropped")
@@ -759,7 +848,7 @@ func (m *mon) check(w *world, o op, cls Class, err error, before, after *snap, c
 				}
 			}
 		}
-	case "deposit", "withdraw", "trade", "mkval", "endblock", "delegate", "undelegate", "redelegate":
+	default:
 		// a position change alters nobody's accrued reward, the actor's included
 		for u := 0; u < nUsers; u++ {
 			for d := 0; d < nDenoms; d++ {
@@ -793,8 +882,8 @@ func (m *mon) check(w *world, o op, cls Class, err error, before, after *snap, c
 			for u := 0; u < nUsers; u++ {
 				m.nround[u] += 2
 			}
-		} else if o.Kind != "trade" {
-			m.nround[o.U] += 2 // a redelegation synchronises twice
+		} else if o.Kind != "trade" && o.Kind != "price" {
+			m.nround[o.U] += int64(2 + nPools) // a redelegation synchronises twice, a hard message every pool of the user
 			pp := o.P
 			if nPools == 1 {
 				pp = 0 // delegator source: P is a validator, the only pool is the bond denom
@@ -995,8 +1084,13 @@ func (w *world) genBlockDt(r *Rng) int64 {
 }
 
 func (w *world) genOp(r *Rng, s *snap, step int) op {
-	if w.src == "delegator" {
+	switch w.src {
+	case "delegator":
 		return w.genOpDeleg(r, s, step)
+	case "cdp":
+		return w.genOpCdp(r, s, step)
+	case "hard":
+		return w.genOpHard(r, s, step)
 	}
 	nUsers, nPools := w.nU, w.nP
 	u := r.Intn(nUsers)
@@ -1073,50 +1167,76 @@ func (w *world) genOp(r *Rng, s *snap, step int) op {
 
 // ------------------------------------------------------------ Coq rendering
 
-func coqOp(w *world, o op, cls Class, before, after *snap) string {
+// coqOps renders what the model is told about one executed operation: the
+// block time, or for a successful source message the (user, pool, new shares,
+// new total) of every position the message synchronises or changes.
+func coqOps(w *world, o op, cls Class, before, after *snap) []string {
+	change := func(u, p int) string {
+		return fmt.Sprintf("Change %s %s %s %s", Nat(u), Nat(p), Z(after.sh[u][p]), Z(after.tot[p]))
+	}
+	held := func(u, p int) bool { return before.sh[u][p].Sign() > 0 || after.sh[u][p].Sign() > 0 }
+	if o.Kind != "block" && o.Kind != "claim" && cls != ClassOk {
+		return []string{"Other false"}
+	}
 	switch o.Kind {
 	case "block":
-		return fmt.Sprintf("Block %s", Z(after.now))
-	case "deposit", "withdraw":
-		if cls != ClassOk {
-			return "Other false"
-		}
-		return fmt.Sprintf("Change %s %s %s %s", Nat(o.U), Nat(o.P), Z(after.sh[o.U][o.P]), Z(after.tot[o.P]))
-	case "mkval", "delegate", "undelegate", "redelegate":
-		if cls != ClassOk {
-			return "Other false"
-		}
-		return fmt.Sprintf("Change %s %s %s %s", Nat(o.U), Nat(0), Z(after.sh[o.U][0]), Z(after.tot[0]))
-	case "endblock":
-		if cls != ClassOk {
-			return "Other false"
-		}
-		// a validator that became bonded: its (single) delegator's bonded stake changes
-		changed := -1
-		for u := range after.sh {
-			if after.sh[u][0].Cmp(before.sh[u][0]) != 0 {
-				if changed >= 0 {
-					return "Other false (* more than one delegator changed in one end block: not expressible *)"
-				}
-				changed = u
+		// totals moved by the source's own begin blocker (accrued interest) are told first
+		var out []string
+		for p := range after.tot {
+			if after.tot[p].Cmp(before.tot[p]) != 0 {
+				out = append(out, fmt.Sprintf("SetTotal %s %s", Nat(p), Z(after.tot[p])))
 			}
 		}
-		if changed >= 0 {
-			return fmt.Sprintf("Change %s %s %s %s", Nat(changed), Nat(0), Z(after.sh[changed][0]), Z(after.tot[0]))
+		return append(out, fmt.Sprintf("Block %s", Z(after.now)))
+	case "deposit", "withdraw":
+		return []string{change(o.U, o.P)}
+	case "mkval", "delegate", "undelegate", "redelegate":
+		return []string{change(o.U, 0)}
+	case "endblock":
+		// validators that became bonded: the bonded stake of their delegators changes
+		var out []string
+		for u := range after.sh {
+			if after.sh[u][0].Cmp(before.sh[u][0]) != 0 {
+				out = append(out, change(u, 0))
+			}
 		}
-		if after.tot[0].Cmp(before.tot[0]) != 0 {
-			return fmt.Sprintf("SetTotal %s %s", Nat(0), Z(after.tot[0]))
+		if len(out) == 0 && after.tot[0].Cmp(before.tot[0]) != 0 {
+			out = append(out, fmt.Sprintf("SetTotal %s %s", Nat(0), Z(after.tot[0])))
 		}
-		return "Other true"
-	case "trade":
-		return fmt.Sprintf("Other %s", Bool(cls == ClassOk))
-	default:
+		if len(out) == 0 {
+			out = append(out, "Other true")
+		}
+		return out
+	case "trade", "price":
+		return []string{"Other true"}
+	case "claim":
 		m := "None"
 		if f := w.cfg.factor(o.D, o.M); f != nil {
 			m = fmt.Sprintf("(Some %s)", Z(f))
 		}
-		return fmt.Sprintf("Claim %s %s %s", Nat(o.U), Nat(o.D), m)
+		return []string{fmt.Sprintf("Claim %s %s %s", Nat(o.U), Nat(o.D), m)}
 	}
+	if strings.HasPrefix(o.Kind, "cdp-") {
+		// every cdp message synchronises (or initialises) the owner's claim for the collateral type
+		return []string{change(o.U, o.P)}
+	}
+	if strings.HasPrefix(o.Kind, "hard-") {
+		// the hooks' contract: a deposit synchronises every denom of the owner's deposit; a repay every
+		// denom of the borrow; a borrow, withdraw or liquidation both
+		supply := o.Kind != "hard-repay"
+		borrow := o.Kind != "hard-deposit"
+		var out []string
+		for p := 0; p < 4; p++ {
+			if ((p < 2 && supply) || (p >= 2 && borrow)) && held(o.U, p) {
+				out = append(out, change(o.U, p))
+			}
+		}
+		if len(out) == 0 {
+			out = append(out, "Other true")
+		}
+		return out
+	}
+	panic("coqOps: unknown kind " + o.Kind)
 }
 
 func coqObs(cls Class, fb, fa []*big.Int) string {
@@ -1142,7 +1262,7 @@ func (w *world) coqHeader(s0 *snap) string {
 		}
 		pds = append(pds, fmt.Sprintf("Some (mk_period %s %s %s)", Z(big.NewInt(w.t0+pc.StartOff)), Z(big.NewInt(w.t0+pc.EndOff)), ZList(rates)))
 	}
-	env := fmt.Sprintf("(mk_env %s %s %s %s %s %s)", Nat(w.nU), Nat(w.nP), Nat(nDenoms), List(pds), Z(big.NewInt(w.t0+w.cfg.ClaimEndOff)), Bool(w.src != "delegator"))
+	env := fmt.Sprintf("(mk_env %s %s %s %s %s %s)", Nat(w.nU), Nat(w.nP), Nat(nDenoms), List(pds), Z(big.NewInt(w.t0+w.cfg.ClaimEndOff)), Bool(exactOf(w.src)))
 	return fmt.Sprintf("%s\n  %s %s %s %s\n  %s", env, Z(big.NewInt(w.t0)), ZList(s0.macc), ZList(s0.gtime), ZList(s0.tot), ZList(s0.flat()))
 }
 
@@ -1162,7 +1282,7 @@ func runHist(seed uint64, idx, n int, src string, cfg histCfg, ops []op, cnt *Co
 	out := runOut{splits: map[string]bool{}}
 	prev := w.snap()
 	head := w.coqHeader(prev)
-	m := newMon(&w.cfg, w.t0, w.nU, w.nP, src != "delegator")
+	m := newMon(&w.cfg, w.t0, w.nU, w.nP, exactOf(src))
 	for p := 0; p < w.nP; p++ {
 		m.prevBlock[p] = prev.gtime[p].Int64() // the test app runs one begin block at genesis time
 	}
@@ -1185,12 +1305,19 @@ func runHist(seed uint64, idx, n int, src string, cfg histCfg, ops []op, cnt *Co
 			cnt.Inc("source:" + src)
 			if cls != ClassOk {
 				cnt.Inc("err:" + o.Kind + ":" + errKind(err))
+				if os.Getenv("C09_DEBUG") != "" && errKind(err) == "other" {
+					msg := err.Error()
+					if len(msg) > 90 {
+						msg = msg[len(msg)-90:]
+					}
+					cnt.Inc("dbg:" + o.Kind + ":" + msg)
+				}
 			}
 		}
 		if cls == ClassOk {
 			out.okOps++
 		}
-		steps = append(steps, fmt.Sprintf("(%s,\n    %s)", coqOp(w, o, cls, prev, after), coqObs(cls, prev.flat(), after.flat())))
+		steps = append(steps, fmt.Sprintf("(%s,\n    %s)", List(coqOps(w, o, cls, prev, after)), coqObs(cls, prev.flat(), after.flat())))
 		if v := m.check(w, o, cls, err, prev, after, cnt, out.splits); v != nil && out.fail == nil {
 			out.fail = &Failure{History: idx, Step: i, Predicate: v.pred, Signature: v.sig, Detail: v.detail}
 		}
@@ -1211,12 +1338,10 @@ var allSplits = []string{
 	"claim:claim-not-found", "claim:insufficient-module-account-balance",
 }
 
-// every fourth history drives the delegator source, the others swap
+// the sources rotate over the history index: of every 8 histories 2 drive swap,
+// 1 the delegator source, 2 cdp USDX minting, 3 hard supply + borrow
 func srcOf(i int) string {
-	if i%4 == 3 {
-		return "delegator"
-	}
-	return "swap"
+	return []string{"swap", "cdp", "hard", "delegator", "hard", "cdp", "swap", "hard"}[i%8]
 }
 
 func runC09(o Opts) (*Result, error) {
@@ -1264,7 +1389,7 @@ func runC09(o Opts) (*Result, error) {
 	ParallelFor(o.N, o.Workers, func(i int) {
 		src := srcOf(i)
 		_, np := dimsOf(src)
-		cfg := genCfg(NewRng(o.Seed, uint64(i)*2), np)
+		cfg := genCfg(NewRng(o.Seed, uint64(i)*2), src, np)
 		cfgs[i] = cfg
 		ot := runHist(o.Seed, i, n, src, cfg, nil, cnt)
 		if ot.fail != nil {
@@ -1286,7 +1411,7 @@ func runC09(o Opts) (*Result, error) {
 	})
 
 	seen := map[string]bool{}
-	perShard := 20
+	perShard := 16
 	var cases []string
 	shard := 0
 	flush := func() error {
@@ -1334,6 +1459,6 @@ func runC09(o Opts) (*Result, error) {
 			res.QualityGate = append(res.QualityGate, k)
 		}
 	}
-	res.Extra = map[string]any{"sources_tied": []string{"swap", "delegator"}}
+	res.Extra = map[string]any{"sources_tied": []string{"swap", "delegator", "cdp-usdx-minting", "hard-supply", "hard-borrow"}}
 	return res, nil
 }
